@@ -254,7 +254,10 @@ def b_memset(ex, st, n, argnodes, t, w):
             else:
                 raise Unsupported("memset pattern")
         da = st.array(dp.region, path, ft)
-        na = ex.fresh("%s.%s" % (dp.region.name, path), z3.ArraySort(I, sort_of(ft)))
+        rs_ = sort_of(ft)
+        if z3.is_bv_sort(rs_) and not z3.is_bv(val):       # a flags word: the same byte pattern as a bit-vector
+            val = z3.BitVecVal(val.as_long() & ((1 << rs_.size()) - 1), rs_.size())
+        na = ex.fresh("%s.%s" % (dp.region.name, path), z3.ArraySort(I, rs_))
         st.assume(z3.ForAll([i], na[i] == z3.If(z3.And(i >= dp.off, i < dp.off + cnt), val, da[i])))
         if ex.written_log is not None:
             ex.written_log.add((dp.region, path, ft.kind))
